@@ -32,6 +32,41 @@ def load(prop):
         return json.load(f)
 
 
+def load_seeded(prop):
+    """seeded changes stored under seeded/<ID>/ that this property's check is recorded to have been run against"""
+    out = []
+    root = os.path.join(VERIF, "seeded")
+    if not os.path.isdir(root):
+        return out
+    for d in sorted(os.listdir(root)):
+        mp = os.path.join(root, d, "meta.json")
+        if not os.path.exists(mp):
+            continue
+        with open(mp) as f:
+            meta = json.load(f)
+        exp = meta.get("checks", {})
+        if prop in exp or meta.get("property") == prop:
+            out.append({"id": d, "patch": os.path.join(root, d, "patch.diff"), "expected": exp.get(prop, "missed")})
+    return out
+
+
+def run_seeded(prop, s, repo="/repo"):
+    tmp = tempfile.mkdtemp(prefix=f"verif-seeded-{prop}-")
+    try:
+        shutil.copytree(os.path.join(repo, "trimesh"), os.path.join(tmp, "trimesh"), ignore=shutil.ignore_patterns("__pycache__", "*.pyc"))
+        r = subprocess.run(["patch", "-p1", "-s", "-f", "-d", tmp, "-i", s["patch"]], capture_output=True, text=True)
+        if r.returncode != 0:
+            return {"id": s["id"], "kind": "seeded", "status": "not-applied", "expected": s["expected"], "why": (r.stdout + r.stderr)[:120]}
+        r = subprocess.run([os.path.join(VERIF, "check"), prop, "--repo", tmp, "--tier", "quick"], capture_output=True, text=True, timeout=900)
+        out = r.stdout + r.stderr
+        viol = [l.strip()[:200] for l in out.splitlines() if l.startswith("  ") and re.search(r"\[[A-Z]\w*\]", l)]
+        status = "killed" if r.returncode == 1 else ("analysis-error" if r.returncode == 2 else "survived")
+        return {"id": s["id"], "kind": "seeded", "status": status, "expected": s["expected"], "reported": viol[:2],
+                "why": "" if status == "killed" or s["expected"] == "missed" else "recorded as caught but not reported"}
+    finally:
+        shutil.rmtree(tmp, ignore_errors=True)
+
+
 def run_variant(prop, v, repo="/repo"):
     tmp = tempfile.mkdtemp(prefix=f"verif-selftest-{prop}-")
     try:
